@@ -136,6 +136,8 @@ def gen_content(rng, max_images=8, unique=True):
 def build_ops(K, rng, slot=0, version="1.2", permute=True, iid_base=0):
     sl = {"slot": slot} if slot else {}
     ops = []
+    if version == "1.2" and rng.random() < 0.5:
+        version = None        # nothing is assigned: a new manifest IS a current-format manifest
     o = {"op": "im_init", "compose": dict(K["compose"]), "version": version}
     o.update(sl)
     ops.append(o)
@@ -160,6 +162,19 @@ def build_ops(K, rng, slot=0, version="1.2", permute=True, iid_base=0):
         rng.shuffle(cells)
     for variant, arch, i in cells:
         o = {"op": "img_add", "variant": variant, "arch": arch, "iid": iid_base + i}
+        o.update(sl)
+        ops.append(o)
+    if cells and permute and rng.random() < 0.12:
+        # somebody offers an image that collides with a filed one (same identity, other checksums): refused, nothing changes
+        variant, arch, i = pick(rng, cells)
+        clone = dict(K["imgs"][i])
+        clone["checksums"] = dict((k, hexstr(rng, len(v))) for k, v in (clone.get("checksums") or {"md5": "0" * 32}).items())
+        clone["additional_variants"] = list(clone.get("additional_variants") or [])
+        clone["path"] = str(clone["path"]) + ".offer"
+        o = {"op": "img_new", "iid": iid_base + 950, "attrs": clone}
+        o.update(sl)
+        ops.append(o)
+        o = {"op": "img_add", "variant": pick(rng, [variant, "Offered"]), "arch": arch, "iid": iid_base + 950}
         o.update(sl)
         ops.append(o)
     if renamed is not None:
